@@ -172,6 +172,21 @@ func gen(tier string, r *lib.Rand, emit func(string)) {
 		}
 		multi([]alloclib.Source{src(), src(), src()}, i)
 	}
+	// (b3) scripts through the real pipeline parse -> Translate -> Allocator -> interpreter
+	for k, sc := range alloclib.AliasScripts {
+		emit(alloclib.SallocCase(sc, good[0]))
+		emit(alloclib.SallocCase(sc, good[1+k%(len(good)-1)]))
+	}
+	for i := 0; i < 2*nrand; i++ {
+		if i%3 == 0 {
+			emit(alloclib.SallocCase(alloclib.RandomScript(r, r.Range(1, 8)), good[r.Intn(len(good))]))
+		} else {
+			emit(alloclib.SallocCase(alloclib.RandomAliasScript(r, r.Range(2, 9)), good[r.Intn(len(good))]))
+		}
+	}
+	for _, sc := range []string{"", "a =", "return 1 +", "a = 2*1\nreturn a +* 1\n", "return [", "a b\n"} {
+		emit(alloclib.SallocCase(sc, good[0]))
+	}
 	// (c) malformed: ill-formed programs, bad configurations, arbitrary identifiers
 	pool := []string{"x", "z", "t0", "t1", "t2", "", "u"}
 	for i := 0; i < nrand; i++ {
@@ -232,6 +247,8 @@ func oracle(c, res string) string {
 		return alloclib.CheckHistory(c, res)
 	case strings.HasPrefix(c, "multi "):
 		return alloclib.CheckMulti(c, res)
+	case strings.HasPrefix(c, "salloc "):
+		return alloclib.CheckSalloc(c, res)
 	case strings.HasPrefix(c, "sharingdiff "):
 		return "allocation depends on operand object sharing"
 	}
@@ -243,7 +260,7 @@ func nontrivial(c, res string) bool {
 	if len(f) < 2 || !strings.HasPrefix(res, "ok ") {
 		return false
 	}
-	if f[0] == "multi" {
+	if f[0] == "multi" || f[0] == "salloc" {
 		return true
 	}
 	p := alloclib.Decode(f[1])
